@@ -122,8 +122,8 @@ type world struct {
 	baseG        int
 
 	spinAt, spinDelay, spinForced, spinFirstAt time.Duration
-	spinCount, spinSends, totalSends         int
-	spinSeen                                 bool
+	spinCount, spinSends, totalSends           int
+	spinSeen                                   bool
 
 	closedByScenario bool
 	closeAddrs       []closeAddrRec
@@ -472,6 +472,10 @@ func (w *world) runCall(c *callRec, ex *exec) {
 	if spec.Async && timeout > 0 {
 		var cancel2 context.CancelFunc
 		ctx, cancel2 = context.WithTimeout(ctx, timeout)
+		defer cancel2()
+	} else if spec.CtxExtraMs > 0 && timeout > 0 {
+		var cancel2 context.CancelFunc
+		ctx, cancel2 = context.WithTimeout(ctx, timeout+time.Duration(spec.CtxExtraMs)*time.Millisecond)
 		defer cancel2()
 	}
 	c.cancel = cancel
